@@ -286,6 +286,24 @@ def _run(case, ctx, b, SPSDKError):  # noqa: C901
         return
     hdr = rep.header
 
+    # ---- 1b. the same object gets another user key and is exported again (one image per device, one object): HMAC and
+    #          encryption of the second image follow the key the object holds NOW
+    if o.get("user_key") and getattr(obj, "hmac_key", None) and ctx.rng.random() < 0.5:
+        new_key = core.rand_bytes(ctx.rng, len(o["user_key"]))
+        ctx.count("user_key_changed_on_the_object")
+        try:
+            obj.hmac_key = new_key if ctx.rng.random() < 0.5 else new_key.hex()
+            data2 = bytes(obj.export())
+            mbi_rom.accept(data2, prof, **dict(kw, user_key=new_key))
+        except core.RefReject as e:
+            viol("second-export-after-user-key-change:" + slug(e.args[0]), model=e.args[0], file_len=len(data2))
+            return
+        except SPSDKError as e:
+            viol("second-export-after-user-key-change-refused", exception=core.exc_brief(e))
+            return
+        finally:
+            del _SIGN_LOG[:]
+
     # ---- 2. what was authenticated is what was asked for ----------------------------------------
     if hdr is not None and hdr["type"] != info["image_type"]:
         viol("image-type-bits", observed=hdr["type"], expected=info["image_type"])
